@@ -22,3 +22,6 @@ func VerifSetUpstreams(c *Configuration, vars map[string]string) error {
 	c.UpstreamConfigs.testTemplateVars = vars
 	return SetUpstreamConfigs(&c.UpstreamConfigs, c.SessionConfig.CookieConfig, &c.ServerConfig)
 }
+
+// VerifParseEnvironment exposes parseEnvironment (SSO_CONFIG_* entries -> template variables, incl. <service>_signing_key).
+func VerifParseEnvironment(environ []string) map[string]string { return parseEnvironment(environ) }
